@@ -98,6 +98,8 @@ enum Class {
     I16,
     U32,
     I32,
+    I64,
+    U64,
     F32,
     F64,
     At,
@@ -119,6 +121,8 @@ const POOL: &[(Tag, Class)] = &[
     (Tag(0x0018, 0x9219), Class::I16),  // TagAngleSecondAxis SS
     (Tag(0x0018, 0x6018), Class::U32),  // RegionLocationMinX0 UL
     (Tag(0x0018, 0x6020), Class::I32),  // ReferencePixelX0 SL
+    (Tag(0x0072, 0x0082), Class::I64),  // SelectorSVValue SV
+    (Tag(0x0008, 0x040C), Class::U64),  // FileOffsetInContainer UV
     (Tag(0x0018, 0x9320), Class::F32),  // TableSpeed? FL (any FL)
     (Tag(0x0018, 0x9182), Class::F64),  // GradientOutput FD
     (Tag(0x0020, 0x5000), Class::At),   // OriginalImageIdentification? (AT, retired) fallback checked at run time
@@ -143,6 +147,8 @@ fn class_of(t: Tag) -> Class {
         Some(VR::SS) => Class::I16,
         Some(VR::UL) => Class::U32,
         Some(VR::SL) => Class::I32,
+        Some(VR::SV) => Class::I64,
+        Some(VR::UV) => Class::U64,
         Some(VR::FL) => Class::F32,
         Some(VR::FD) => Class::F64,
         Some(VR::AT) => Class::At,
@@ -170,6 +176,10 @@ fn gen_text(r: &mut Rng, uid: bool) -> String {
 }
 
 fn small_int(r: &mut Rng) -> i64 {
+    // boundary values of the 16- and 32-bit kinds (every `as` cast of extend_* is exercised at its wrap point)
+    if r.chance(1, 4) {
+        return *r.pick(&[0x7FFF, 0x8000, 0xFFFF, 0x10000, 0x7FFF_FFFF, 0x8000_0000, 0xFFFF_FFFF, -0x8000_0000i64, -0x8001, 3_000_000_000]);
+    }
     match r.below(10) {
         0 => 0,
         1 => -1,
@@ -218,6 +228,8 @@ fn gen_value(r: &mut Rng, c: Class) -> PrimitiveValue {
         Class::I16 => PrimitiveValue::I16((0..k).map(|_| r.edgy(16) as i16).collect()),
         Class::U32 => PrimitiveValue::U32((0..k).map(|_| r.edgy(32) as u32).collect()),
         Class::I32 => PrimitiveValue::I32((0..k).map(|_| r.edgy(32) as i32).collect()),
+        Class::I64 => PrimitiveValue::I64((0..k).map(|_| r.edgy(64) as i64).collect()),
+        Class::U64 => PrimitiveValue::U64((0..k).map(|_| r.edgy(64)).collect()),
         Class::F32 => PrimitiveValue::F32((0..k).map(|_| if r.chance(1, 4) { f32::from_bits(r.next_u32()) } else { half(r) as f32 / 2.0 }).filter(|x| !x.is_nan()).collect()),
         Class::F64 => PrimitiveValue::F64((0..k).map(|_| if r.chance(1, 4) { f64::from_bits(r.next_u64()) } else { half(r) as f64 / 2.0 }).filter(|x| !x.is_nan()).collect()),
         Class::At => PrimitiveValue::Tags((0..k).map(|_| Tag(r.edgy(16) as u16, r.edgy(16) as u16)).collect()),
@@ -235,6 +247,7 @@ fn safe_vr_for(r: &mut Rng, c: Class) -> VR {
         Class::Uid => VR::UI,
         Class::U16 | Class::I16 => *r.pick(&[VR::US, VR::SS]),
         Class::U32 | Class::I32 => *r.pick(&[VR::UL, VR::SL]),
+        Class::I64 | Class::U64 => *r.pick(&[VR::SV, VR::UV]),
         Class::F32 => *r.pick(&[VR::FL, VR::OF]),
         Class::F64 => *r.pick(&[VR::FD, VR::OD]),
         Class::At => VR::AT,
@@ -336,6 +349,8 @@ fn main() {
             let cur_class = cur.map(|e| match e.vr() {
                 VR::US | VR::SS => Class::U16,
                 VR::UL | VR::SL => Class::U32,
+                VR::SV => Class::I64,
+                VR::UV | VR::OV => Class::U64,
                 VR::FL | VR::OF => Class::F32,
                 VR::FD | VR::OD => Class::F64,
                 VR::UI => Class::Uid,
@@ -408,7 +423,8 @@ fn main() {
                         let kind = r.below(6);
                         let existing_ok = cur_prim_nonempty
                             && (cur_text || cur_bytes
-                                || matches!(cur_class, Some(Class::U16) | Some(Class::U32) | Some(Class::F32) | Some(Class::F64)));
+                                || matches!(cur_class, Some(Class::U16) | Some(Class::I16) | Some(Class::U32) | Some(Class::I32)
+                                    | Some(Class::I64) | Some(Class::U64) | Some(Class::F32) | Some(Class::F64)));
                         let fresh_vr = if cur.is_some() && !cur_is_seq { cur.map(|e| e.vr()) } else { dict_vr(tag) };
                         let fresh_ok = !cur_prim_nonempty && !cur_is_seq
                             && match fresh_vr {
